@@ -1,8 +1,20 @@
 #!/bin/bash
 # Builds the simulation binary from /repo's current working tree with hooks on.
+# (VERIF_REPO / VERIF_BIN let the mutant runner build against a scratch worktree
+# into a separate binary; the registered checks never set them.)
 set -e
 export GOFLAGS=-mod=mod GOPROXY=off GOSUMDB=off GOTOOLCHAIN=local
+REPO="${VERIF_REPO:-/repo}"
+BIN="${VERIF_BIN:-/verif/bin/sim.test}"
 cd /verif/sim
-cp /repo/go.sum . 2>/dev/null || true
-mkdir -p /verif/bin
-go1.26.8 test -c -tags verif -o /verif/bin/sim.test . 
+mkdir -p "$(dirname "$BIN")"
+if [ "$REPO" = "/repo" ]; then
+  cp /repo/go.sum . 2>/dev/null || true
+  go1.26.8 test -c -tags verif -o "$BIN" .
+else
+  tag=$(echo "$REPO" | tr -c 'A-Za-z0-9' '_')
+  sed "s#=> /repo#=> $REPO#" go.mod > go.alt$tag.mod
+  cp "$REPO/go.sum" go.alt$tag.sum
+  go1.26.8 test -c -tags verif -modfile=go.alt$tag.mod -o "$BIN" .
+  rm -f go.alt$tag.mod go.alt$tag.sum
+fi
